@@ -106,4 +106,23 @@ CHECKS = {
         "quick": [T("TestC05", 8, 200, steps=35)],
         "thorough": [T("TestC05", 16, 5000, steps=50, timeout=3000)],
     },
+    "C08": {
+        "level": "exploration",
+        "crash_is_violation": True,
+        "rule": ("rapid: histories of 1-5 blocks of 0-16 transactions on a real node (std world, audit on/off, proof type "
+                 "serial/parallel) from the full grammar (transfers with boundary/non-numeric amounts, Store calls, IBTP "
+                 "request/receipt/bad index/bad proof, one-to-many children, governance register/vote/lifecycle, malformed "
+                 "payloads, unknown vm type/method/contract, wrong arity/types, malformed ids, XVM deploy valid/truncated/random, "
+                 "flipped signature, fee-less sender) plus reflective calls of every exported method of every registered contract "
+                 "with well-typed pooled, wrong-arity and wrong-type argument vectors at drawn block positions. Oracle: executed "
+                 "event within the deadline, chain height +1, stored block has all transactions, every transaction has exactly one "
+                 "receipt with its hash at its position, process alive (the case is journaled before every block; a dead shard is a "
+                 "violation with the journal as replay). Non-trivial = a block in which a generated argument vector reached "
+                 "contract code or a malformed/XVM transaction was executed; distinct = set of reached (contract.method | "
+                 "malformation) labels."),
+        "assumptions": ["input domain = what api/grpc.checkTransaction admits (From/To set, From != To, well-formed signature) plus bad signatures delivered as remote transactions",
+                        "liveness deadline 60 s per block (typical execution about 1 ms)"],
+        "quick": [T("TestC08", 8, 120, steps=30)],
+        "thorough": [T("TestC08", 16, 5000, steps=30, timeout=3000)],
+    },
 }
